@@ -1031,7 +1031,24 @@ class Interp:
         return out
 
     def e_GeneratorExp(self, e, env):
-        return iter(self.e_ListComp(e, env))
+        """lazy, like CPython: the outermost iterable is evaluated now, everything else (element expression, filters, inner
+        iterables — and any exception they raise) when the generator is consumed"""
+        gens = e.generators
+        first_iter = self.ev(gens[0].iter, env)
+
+        def rec(i, en, it0=None):
+            if i == len(gens):
+                yield self.ev(e.elt, en)
+                return
+            g = gens[i]
+            source = it0 if i == 0 else self.ev(g.iter, en)
+            for v in m_iter(source):
+                e2 = Env(en.globs, en)
+                self.assign(g.target, v, e2)
+                if all(truth(self.ev(c, e2)) for c in g.ifs):
+                    yield from rec(i + 1, e2)
+
+        return rec(0, env, first_iter)
 
     def e_SetComp(self, e, env):
         return set(self.e_ListComp(e, env))
